@@ -8,14 +8,15 @@ CLASSES = ["pess", "opt", "mcs"]
 
 
 QUICK_CAPS = [1, 2, 3, 8]
-THOROUGH_CAPS = [1, 2, 3, 5, 8, 16, 64]
+THOROUGH_CAPS = [1, 2, 3, 5, 8, 16, 64, 100]
+BIG_CAP = 100  # more than 64 IDs (a second 64-bit word for anything that keeps per-ID bitmaps)
 
 
 def all_builds():
     b = ["lock_stress.plain", "lock_stress.tsan", "lock_stress.asan", "lock_seq.plain",
          "lock_stress.plain.spinalt", "lock_seq.plain.spinalt",
          "zipf_mon.plain", "zipf_mon.asanfatal", "zipf_mon.tsan"]
-    b += ["thr_mon.plain.n%d" % n for n in QUICK_CAPS]
+    b += ["thr_mon.plain.n%d" % n for n in QUICK_CAPS + [BIG_CAP]]
     b += ["thr_mon.asan.n%d" % n for n in (3, 8)]
     return b
 
@@ -388,9 +389,11 @@ def _epoch_extra(subs):
 
 
 def spec_C04(prop, tier, seed, t0):
-    caps = [2, 3, 8] if tier == "quick" else [2, 3, 5, 8, 16, 64]
+    caps = [2, 3, 8] if tier == "quick" else [2, 3, 5, 8, 16, 64, BIG_CAP]
     runs, scale = (12, 1) if tier == "quick" else (60, 8)
     jobs = thr_jobs("epoch", caps, seed, runs, scale, extra=_epoch_extra(["A"]))
+    if tier == "quick":
+        jobs += thr_jobs("epoch", [BIG_CAP], seed + 4, 3, 1, extra=_epoch_extra(["A"]))
     return _mk(prop, tier, seed, t0, jobs, {"guard_forward_pairs_checked": 50000, "guard_forward_pairs_on_reused_id": 5000,
                                            "thread_replacements": 60, "chaos_overlaps:43+44": 20},
                rule=EPOCH_RULE, assumptions=THR_ASSUME)
@@ -409,7 +412,7 @@ def spec_C16(prop, tier, seed, t0):
 
 
 def spec_C17(prop, tier, seed, t0):
-    caps = [2, 3, 8] if tier == "quick" else [2, 3, 5, 8, 16, 64]
+    caps = [2, 3, 8] if tier == "quick" else [2, 3, 5, 8, 16, 64, BIG_CAP]
     runs, scale = (9, 1) if tier == "quick" else (60, 8)
     jobs = thr_jobs("epoch", caps, seed, runs, scale, extra=_epoch_extra(["A", "A", "A", "B", "A", "C"]))
     acaps = [3, 8] if tier == "quick" else [3, 8]
@@ -426,6 +429,8 @@ def spec_C20(prop, tier, seed, t0):
     caps = QUICK_CAPS if tier == "quick" else THOROUGH_CAPS
     runs, scale = (4, 8) if tier == "quick" else (30, 40)
     jobs = thr_jobs("model", caps, seed, runs, scale)
+    if tier == "quick":
+        jobs += thr_jobs("model", [BIG_CAP], seed + 4, 2, scale)
     jobs += thr_jobs("model", [3, 8], seed + 3, 1 if tier == "quick" else 10, 2, flavor="asan", stderr_rules=[LEAK_RULE])
     rule = ("one evaluation = one ForwardGlobalEpoch in a lock-step (sequential) history of guard creation/destruction "
             "by up to N-1 worker threads, after which the published list and GetMinEpoch are compared with a "
